@@ -28,10 +28,38 @@ let trace_str l = match l with [] -> "-" | _ -> String.concat "," (List.map (fun
 
 let handle = function
   (* filter arg self ppid tree -> ok drop|pass trace *)
-  | ["filter"; arg; self; ppid; tree] | ["filter"; arg; self; ppid; tree; _] | ["cfilter"; arg; self; ppid; tree; _] ->
+  | ["filter"; arg; self; ppid; tree] | ["filter"; arg; self; ppid; tree; _] | ["cfilter"; arg; self; ppid; tree; _]
+  | ["filter0"; arg; self; ppid; tree; _] | ["cfilter0"; arg; self; ppid; tree; _] ->
     (match filter_run sc (unhex arg) (z_of_string self) (z_of_string ppid) (parse_tree tree) with
      | (Ok v, tr) -> "ok\t" ^ (match v with DROP -> "drop" | PASS -> "pass") ^ "\t" ^ trace_str tr
      | (Fault f, _) -> "fault:" ^ fault_name f)
+  (* two elements of the filter chain: the walker stops at the first DROP *)
+  | ["cfilter2"; args; self; ppid; tree; _] ->
+    (match String.split_on_char '+' args with
+     | [a1; a2] ->
+       let t = parse_tree tree in
+       (match filter_run sc (unhex a1) (z_of_string self) (z_of_string ppid) t with
+        | (Ok DROP, tr) -> "ok\tdrop\t" ^ trace_str tr
+        | (Ok PASS, tr1) ->
+          (match filter_run sc (unhex a2) (z_of_string self) (z_of_string ppid) t with
+           | (Ok v, tr2) -> "ok\t" ^ (match v with DROP -> "drop" | PASS -> "pass") ^ "\t" ^ trace_str (tr1 @ tr2)
+           | (Fault f, _) -> "fault:" ^ fault_name f)
+        | (Fault f, _) -> "fault:" ^ fault_name f)
+     | _ -> "driver-error:cfilter2")
+  (* one thread per argument on the same tree: every thread must see its own verdict *)
+  | ["tfilter"; args; self; ppid; tree; _] ->
+    let t = parse_tree tree in
+    "ok\t" ^ String.concat "," (List.map (fun a ->
+      match filter_run sc (unhex a) (z_of_string self) (z_of_string ppid) t with
+      | (Ok DROP, _) -> "drop" | (Ok PASS, _) -> "pass" | (Fault f, _) -> "fault:" ^ fault_name f) (String.split_on_char ';' args))
+  (* specm args(;) ppid atab verdicts(,) -> ok | bad *)
+  | ["specm"; args; ppid; atab; vs] ->
+    let al = String.split_on_char ';' args and vl = String.split_on_char ',' vs in
+    if List.length al <> List.length vl then "bad" else
+    if List.for_all2 (fun a v -> match v with
+        | "drop" -> spec_C15_ok (unhex a) (z_of_string ppid) (parse_atab atab) DROP
+        | "pass" -> spec_C15_ok (unhex a) (z_of_string ppid) (parse_atab atab) PASS
+        | _ -> false) al vl then "ok" else "bad"
   (* spec arg ppid atab verdict -> ok | bad *)
   | ["spec"; arg; ppid; atab; v] ->
     let ob = (match v with "drop" -> DROP | "pass" -> PASS | _ -> failwith "verdict") in
